@@ -10,6 +10,14 @@ directory and (b) to the s-expression the extracted model reads. A case is a JSO
         | {"t": "f", "name": s, "kind": "parsed", "items": [item, ...]}
         | {"t": "f", "name": s, "kind": "unparsable", "raw": text}
         | {"t": "f", "name": s, "kind": "notutf8", "hex": hex string}
+        | {"t": "l", "name": s, "to": "file", "where": "outside" | "inside", ["rel": "a/b.rs",] + the kind/items/raw/hex
+           fields of a file node}   symbolic link to a regular file with these contents: "outside" = the file
+           is written to <sandbox case dir>/__ext/ (not below the project root), link target absolute;
+           "inside" = the file is another node of the tree (same contents, by construction of the generator)
+           at the relative path "rel" from the directory of the link, link target relative
+        | {"t": "l", "name": s, "to": "dir", "where": "outside" | "self"}   link to a directory: outside one holding
+           a decoy command in inner.rs, or "." (a loop for whoever follows it)
+        | {"t": "l", "name": s, "to": "dangling"}
   item  = {"k": "fn", "name", "attrs": [{"segs": [...], "text": "#[...]"}], "doc": bool,
            "vis": "", "async": bool, "params": [[name, type text]], "ret": type | None, "recv": bool}
         | {"k": "impl", "ty": s, "fns": [fn items]}
@@ -73,12 +81,35 @@ def file_bytes(n):
     return bytes.fromhex(n["hex"])
 
 
-def write_tree(base, tree):
+DECOY = "#[tauri::command]\npub fn reached_through_a_directory_link() -> String {\n    todo!()\n}\n"
+
+
+def write_tree(base, tree, ext):
+    """ext: a directory that is not below the project root; receives the targets of outside links."""
     os.makedirs(base, exist_ok=True)
     for n in tree:
         p = os.path.join(base, n["name"])
         if n["t"] == "d":
-            write_tree(p, n["ch"])
+            write_tree(p, n["ch"], ext)
+        elif n["t"] == "l":
+            os.makedirs(ext, exist_ok=True)
+            k = len(os.listdir(ext))
+            if n["to"] == "file" and n["where"] == "outside":
+                tgt = os.path.join(ext, "t%d_%s" % (k, n.get("tname", "shared.rs")))
+                with open(tgt, "wb") as f:
+                    f.write(file_bytes(n))
+            elif n["to"] == "file":
+                tgt = n["rel"]                      # relative to the directory of the link
+            elif n["to"] == "dir" and n["where"] == "outside":
+                tgt = os.path.join(ext, "d%d" % k)
+                os.makedirs(tgt)
+                with open(os.path.join(tgt, "inner.rs"), "w") as f:
+                    f.write(DECOY)
+            elif n["to"] == "dir":
+                tgt = "."
+            else:
+                tgt = "nowhere/missing.rs"
+            os.symlink(tgt, p)
         else:
             with open(p, "wb") as f:
                 f.write(file_bytes(n))
@@ -133,6 +164,11 @@ def item_sx(it):
 def node_sx(n):
     if n["t"] == "d":
         return ["d", n["name"], [node_sx(c) for c in n["ch"]]]
+    if n["t"] == "l":
+        if n["to"] == "file":
+            c = ["parsed", [item_sx(i) for i in n["items"]]] if n["kind"] == "parsed" else [n["kind"]]
+            return ["l", n["name"], ["file", c]]
+        return ["l", n["name"], [n["to"]]]
     if n["kind"] == "parsed":
         return ["f", n["name"], ["parsed", [item_sx(i) for i in n["items"]]]]
     return ["f", n["name"], [n["kind"]]]
@@ -357,8 +393,42 @@ def gen_layout(rng, malformed=False, in_class_weight=0.12):
             placed += 1
     if rng.random() < 0.15:
         insert(tree, [rng.choice(DIR_NAMES) for _ in range(rng.randint(0, 2))], {"t": "d", "name": rng.choice(["empty", "y.rs", "target"]), "ch": []})
+    if rng.random() < (0.5 if malformed else 0.35):
+        for _ in range(rng.choice([1, 1, 2])):
+            add_link(rng, tree, malformed)
     case["tree"] = tree
     return case
+
+
+CONTENT_KEYS = ("kind", "items", "raw", "hex")
+LINK_RS_NAMES = ["shared.rs", "common.rs", "link.rs", "x.y.rs", "target.rs"]
+
+
+def add_link(rng, tree, malformed=False):
+    """Insert one symbolic link (see the node grammar at the top of the file)."""
+    dirs = [rng.choice(DIR_NAMES) for _ in range(rng.choice([0, 0, 1, 1, 2]))]
+    r = rng.random()
+    lname = rng.choice(LINK_RS_NAMES) if rng.random() < 0.8 else rng.choice(NON_RS_NAMES)
+    if r < 0.45:            # regular file outside the project root (source shared between crates)
+        tname = rng.choice(["shared.rs", "shared.rs", "lib.rs", "notes.txt", "noext"])
+        f = gen_file(rng, "main.rs", malformed)           # contents as for an .rs file
+        n = {"t": "l", "name": lname, "to": "file", "where": "outside", "tname": tname}
+        n.update({k: f[k] for k in CONTENT_KEYS if k in f})
+        return insert(tree, dirs, n)
+    if r < 0.70:            # regular file inside the project root, possibly below target/
+        sub = rng.choice([[], [], ["common"], ["target"], [".git"]])
+        tname = rng.choice(["orig.rs", "orig.rs", "orig.txt", "gen.rs"])
+        f = gen_file(rng, tname if tname.endswith(".rs") else "main.rs", malformed)
+        f["name"] = tname
+        if not insert(tree, dirs + sub, f):
+            return False
+        n = {"t": "l", "name": lname, "to": "file", "where": "inside", "rel": "/".join(sub + [tname])}
+        n.update({k: f[k] for k in CONTENT_KEYS if k in f})
+        return insert(tree, dirs, n)
+    if r < 0.88:            # directory
+        return insert(tree, dirs, {"t": "l", "name": rng.choice(["linked", "vendor", "x.rs", "loop.rs"]), "to": "dir",
+                                   "where": rng.choice(["outside", "outside", "self"])})
+    return insert(tree, dirs, {"t": "l", "name": rng.choice(LINK_RS_NAMES), "to": "dangling"})
 
 
 def one_cmd_file(name, fname="probe"):
@@ -431,6 +501,13 @@ def stats(case, acc):
             if n["t"] == "d":
                 acc["dir:" + n["name"]] = acc.get("dir:" + n["name"], 0) + 1
                 walk(n["ch"], depth + 1)
+            elif n["t"] == "l":
+                key = "link:" + n["to"] + (":" + n["where"] if "where" in n else "")
+                if n["to"] == "file":
+                    key += ":" + n["kind"] + (":rs_name" if n["name"].endswith(".rs") and len(n["name"]) > 3 else ":other_name")
+                acc[key] = acc.get(key, 0) + 1
+                if n["to"] == "file" and n["kind"] == "parsed":
+                    items(n["items"], True)
             else:
                 acc["file_kind:" + n["kind"]] = acc.get("file_kind:" + n["kind"], 0) + 1
                 acc["file_depth:%d" % depth] = acc.get("file_depth:%d" % depth, 0) + 1
